@@ -131,7 +131,7 @@ def run(ctx):
                         res.violation("targeted corruption: %s" % key, None, path)
                         break
         # ---- 3. coverage-guided campaign, one process per core
-        runs = ctx.pick(250000, 12000000)
+        runs = ctx.pick(250000, 3000000)
 
         def fuzz(i):
             cdir = os.path.join(work, "corpus%d" % i)
